@@ -187,7 +187,7 @@ static int do_hash_file(const char *file, EVP_MD_CTX *ctx, bool follow,
 	return -1;
     }
 
-    EVP_DigestUpdate(ctx, file, strlen(file));
+    EVP_DigestUpdate(ctx, file, strlen(file) + 1);
     EVP_DigestUpdate(ctx, &statbuf.st_dev, sizeof(statbuf.st_dev));
     EVP_DigestUpdate(ctx, &statbuf.st_ino, sizeof(statbuf.st_ino));
     EVP_DigestUpdate(ctx, &statbuf.st_size, sizeof(statbuf.st_size));
@@ -209,13 +209,23 @@ static int hash_file(const char *file, EVP_MD_CTX *ctx, void *log_ref)
 
 static int hash_value(const char *value, EVP_MD_CTX *ctx)
 {
-    EVP_DigestUpdate(ctx, value, strlen(value));
+    /* the length delimits the value, so that two sets of items with
+       the same concatenated contents, but different boundaries
+       between the items, yield different hashes */
+    size_t len = strlen(value);
+
+    EVP_DigestUpdate(ctx, &len, sizeof(len));
+    EVP_DigestUpdate(ctx, value, len);
 
     return 0;
 }
 
 static int hash_item(const struct item *item, EVP_MD_CTX *ctx, void *log_ref)
 {
+    /* an unset item is different from an item of another kind */
+    int type = item->type;
+    EVP_DigestUpdate(ctx, &type, sizeof(type));
+
     switch (item->type) {
     case item_type_none:
 	return 0;
